@@ -412,7 +412,7 @@ class Names:
         base = {"func": ["calc_value_", "run", "get_x_y_", "doIt", "f"],
                 "cls": ["Widget", "DataHolder", "HTTPServer", "C", "Round__Shape", "Io__"],
                 "attr": ["count_", "max_val_", "a", "someAttr"],
-                "param": ["p", "arg_", "some_param_", "x"],
+                "param": ["p", "arg_", "some_param_", "x", "p", "x", "_"],      # "_" gives names like _061q4: kept by the naming conversion
                 "enum": ["Color", "mode_kind_"],
                 "member": ["RED_", "low_val_", "M"],
                 "mod": ["mod_", "helpers_", "m"],
